@@ -264,7 +264,7 @@ func RuleListen(r *Report, p *Program) {
 	{
 		nChan, nGo := 0, 0
 		unbuffered := true
-		var consumer *ssa.MakeClosure
+		var consumer *goTarget
 		deferClose := false
 		for _, b := range lfn.Blocks {
 			for _, in := range b.Instrs {
@@ -276,7 +276,7 @@ func RuleListen(r *Report, p *Program) {
 					}
 				case *ssa.Go:
 					nGo++
-					consumer, _ = x.Call.Value.(*ssa.MakeClosure)
+					consumer = goTargetOf(x)
 				case *ssa.Defer:
 					if bi, ok := x.Call.Value.(*ssa.Builtin); ok && bi.Name() == "close" {
 						deferClose = true
@@ -296,19 +296,23 @@ func RuleListen(r *Report, p *Program) {
 		_ = unbuffered
 		r.Check(d == "", "LS3", "Listen:pipe", p.Pos(lfn.Pos()), "one pipe, one consumer, closed on return", d)
 		if consumer != nil {
-			cf := consumer.Fn.(*ssa.Function)
+			cf := consumer.Fn
 			w := NewWalker(p)
 			w.LoopFuel = 2
 			upk := p.SSAPkg("uhppote")
+			helpers := inlineHelpers([]*ssa.Package{upk}, func(f *ssa.Function) bool { return a.Senders[f] != "" })
 			w.Inline = func(f *ssa.Function, d int) bool {
 				if f.Parent() != nil {
 					return true
 				}
-				if f.Pkg == upk && f.Object() != nil && !f.Object().Exported() && a.Senders[f] == "" && f.Name() != "debugf" {
-					res := f.Signature.Results()
-					return !(res.Len() == 1 && isBoolType(res.At(0).Type()))
+				if f.Object() != nil && f.Object().Exported() {
+					return false
 				}
-				return false
+				res := f.Signature.Results()
+				if res.Len() == 1 && isBoolType(res.At(0).Type()) {
+					return false
+				}
+				return helpers(f, d)
 			}
 			var evT types.Type
 			w.OnRecv = func(w *Walker, ch *Term, t types.Type, id int) (*Term, bool) {
@@ -327,8 +331,12 @@ func RuleListen(r *Report, p *Program) {
 				return &Term{Op: "ptr", Cell: cell, Typ: t}, true
 			}
 			// bind free variables to the closures captured from Listen (sysdatetime helper)
-			binds := make([]*Term, len(consumer.Bindings))
-			for i, bv := range consumer.Bindings {
+			var bindings []ssa.Value
+			if mc, ok := consumer.Go.Call.Value.(*ssa.MakeClosure); ok {
+				bindings = mc.Bindings
+			}
+			binds := make([]*Term, len(bindings))
+			for i, bv := range bindings {
 				if mc, ok := bv.(*ssa.MakeClosure); ok {
 					binds[i] = &Term{Op: "closure", Fn: mc.Fn.(*ssa.Function), Typ: mc.Type()}
 				} else if al, ok := bv.(*ssa.Alloc); ok {
@@ -350,7 +358,7 @@ func RuleListen(r *Report, p *Program) {
 					}
 				}
 			}
-			paths := w.Walk(cf, nil, binds)
+			paths := w.Walk(cf, symbolicArgs(cf), binds)
 			if os.Getenv("UHLINT_DEBUG") != "" {
 				for _, pa := range paths {
 					fmt.Println("CONSUMER:", pa.Outcome, pa.Detail, pa.State.Describe())
